@@ -13,7 +13,10 @@ import (
 	"github.com/taskctl/taskctl/pkg/task"
 )
 
-const ansi = "[\u001B\u009B][[\\]()#;?]*(?:(?:(?:[a-zA-Z\\d]*(?:;[a-zA-Z\\d]*)*)?\u0007)|(?:(?:\\d{1,4}(?:;\\d{0,4})*)?[\\dA-PRZcf-ntqry=><~]))"
+// Two kinds of sequences are stripped: operating system commands, "ESC ]" up to the terminating BEL, and
+// control sequences. The BEL-terminated form is only tried behind "ESC ]": tried behind any introducer
+// it swallowed ordinary text up to the next BEL ("ESC[31mERROR" followed by the terminal bell).
+const ansi = "(?:\u001B\\][a-zA-Z\\d]*(?:;[a-zA-Z\\d]*)*\u0007)|(?:[\u001B\u009B][[\\]()#;?]*(?:\\d{1,4}(?:;\\d{0,4})*)?[\\dA-PRZcf-ntqry=><~])"
 
 var ansiRegexp = regexp.MustCompile(ansi)
 
